@@ -20,7 +20,9 @@ import (
 	"hash/crc32"
 	"math/rand"
 	"os"
+	"runtime/debug"
 	"sort"
+	"sync"
 
 	"github.com/sarchlab/akita/v4/mem/mem"
 	"github.com/sarchlab/akita/v4/mem/vm"
@@ -65,15 +67,17 @@ type MemSpec struct {
 
 // Scenario is one case.
 type Scenario struct {
-	Name    string       `json:"name"`
-	SB      bool         `json:"sb,omitempty"`
-	Kernels []KernelSpec `json:"kernels"`
-	WGs     []WGSpec     `json:"wgs"`
-	Mem     MemSpec      `json:"mem"`
-	AceHold [][2]int     `json:"acehold,omitempty"` // cycle windows in which the dispatcher does not take completions
-	Vals    bool         `json:"vals,omitempty"`    // compare final memory with emulation
-	NoEmu   bool         `json:"noemu,omitempty"`
-	Sys     string       `json:"sys,omitempty"` // "" component level; "r9nano": system level
+	Name      string       `json:"name"`
+	SB        bool         `json:"sb,omitempty"`
+	Kernels   []KernelSpec `json:"kernels"`
+	WGs       []WGSpec     `json:"wgs"`
+	Mem       MemSpec      `json:"mem"`
+	AceHold   [][2]int     `json:"acehold,omitempty"` // cycle windows in which the dispatcher does not take completions
+	Vals      bool         `json:"vals,omitempty"`    // compare final memory with emulation
+	NoEmu     bool         `json:"noemu,omitempty"`
+	Sys       string       `json:"sys,omitempty"`   // "" component level; "r9nano": system level
+	Bench     string       `json:"bench,omitempty"` // system level: a shipped benchmark instead of generated kernels
+	BenchArgs []int        `json:"benchargs,omitempty"`
 }
 
 const (
@@ -286,11 +290,14 @@ type stats struct {
 type runner struct {
 	rec *ab.Recorder
 	st  *stats
+	mu  sync.Mutex
 }
 
 func (r *runner) emit(e string, f ab.Rec) {
+	r.mu.Lock()
 	r.st.Events++
 	r.rec.Emit(e, f)
+	r.mu.Unlock()
 }
 
 // ------------------------------------------------------------------ emulation CU
@@ -448,6 +455,9 @@ func (r *runner) runTiming(ce *caseEnv, idx int, ref *memImage, paths map[int][]
 	defer func() {
 		if e := recover(); e != nil {
 			r.st.Panics++
+			if os.Getenv("C14_STACK") != "" {
+				fmt.Fprintf(os.Stderr, "panic: %v\n%s\n", e, debug.Stack())
+			}
 			r.emit("Panic", ab.Rec{"mode": "timing", "msg": fmt.Sprint(e)})
 		}
 	}()
@@ -767,6 +777,10 @@ func (r *runner) runCase(i int, sc *Scenario) {
 	if err != nil {
 		fmt.Println("INFRA: cannot assemble scenario", sc.Name, ":", err)
 		os.Exit(3)
+	}
+	if sc.Bench != "" {
+		r.runBench(ce, i)
+		return
 	}
 	if sc.Sys != "" {
 		r.runSys(ce, i)
